@@ -1,27 +1,23 @@
-"""Per-property configuration of bin/check: generator families (quick count, thorough count),
-which result keys K compares (None = the whole canonical line), trusted base, notes."""
+"""Per-property configuration of bin/check, assembled from bin/props/Cxx.py.
+Each bin/props/Cxx.py defines CONF (generator families as (family, quick count, thorough count), which result
+keys K compares (None = the whole canonical line), trusted base, notes) and TEXT (MANIFEST texts)."""
+import os, glob, importlib.util, sys
+sys.path.insert(0, os.path.dirname(__file__))
 
 TRUSTED_COMMON = [
     'Coq 8.16.1 kernel (coqc; coqchk as independent re-check in the thorough tier); vm_compute used inside some proofs; native_compute not used',
     'no axioms declared by the development; Print Assumptions of each property theorem is recorded in coverage.print_assumptions',
     'translator tools/genconsts (Go constants and literal tables -> coq/Gen/*.v, regenerated on every run)',
     'extraction: Require Extraction + ExtrOcamlBasic only (its Extract Inductive for bool, option, unit, list, prod, sumbool, sumor); no Extract Constant; N, Z, positive, nat, byte stay Coq inductives; OCaml 4.13.1',
-    'ocaml/driver.ml (hex/number/line parsing) and harness/*.go (generators, canonical printing), bin/check (diff)',
+    'ocaml/drv_*.ml (hex/number/line parsing) and harness/*.go (generators, canonical printing), bin/check (diff)',
     'Go toolchain, cgo and the libraries below the repository (btcd, btcutil, btcec, go-secp256k1-zkp, fastsha256)',
 ]
 
-PROPS = {
-    'C01': dict(
-        families=[('tx', 250, 4000), ('raw', 250, 4000)],
-        compare=None,
-        trusted=['modelled by hand: transaction/transaction.go serialize/NewTxFromBuffer, internal/bufferutil (varint, slices, vectors, Elements value/asset/nonce readers), block/serialize.go, block/deserialize.go'],
-        explanation='theorems: parse(ser t ++ rest) = (norm t, rest) for all wf t; ser(parse bs) ++ rest = bs for all accepted bs with canonical flag; same for headers/blocks. '
-                    'K: model vs implementation on generated transaction/block values (3/4 inside the wf domain) and on a malformed byte stream.',
-    ),
-    'C19': dict(
-        families=[('tx', 400, 6000)],
-        compare=['ser', 'sz0', 'sz1', 'w', 'vs', 'dw', 'dvs', 'hasw'],
-        trusted=['modelled by hand: SerializeSize, baseSize, Weight, VirtualSize, DiscountWeight, DiscountVirtualSize, TxInput/TxOutput/TxWitness.SerializeSize, VarIntSerializeSize, VarSliceSerializeSize'],
-        explanation='theorems: size_tx aw = length(ser_tx aw) for every transaction whose fixed-width fields have their fixed widths; weight/vsize definitions; discount bounds and rule.',
-    ),
-}
+PROPS, TEXT = {}, {}
+for _p in sorted(glob.glob(os.path.join(os.path.dirname(__file__), 'props', 'C*.py'))):
+    _id = os.path.basename(_p)[:-3]
+    _spec = importlib.util.spec_from_file_location('props_' + _id, _p)
+    _m = importlib.util.module_from_spec(_spec)
+    _spec.loader.exec_module(_m)
+    PROPS[_id] = _m.CONF
+    TEXT[_id] = _m.TEXT
